@@ -522,7 +522,7 @@ pub fn alphabet() -> Vec<&'static str> {
 
 /// Parse the dispatch chain out of the source text of `run_app` and compare it with `table()`.
 pub fn self_check() {
-    let src = std::fs::read_to_string("/repo/crates/trippy-tui/src/frontend.rs").expect("MACHINERY: cannot read frontend.rs");
+    let src = std::fs::read_to_string(format!("{}/crates/trippy-tui/src/frontend.rs", vcore::report::repo_root())).expect("MACHINERY: cannot read frontend.rs");
     let start = src.find("fn run_app").expect("MACHINERY: run_app not found");
     let body = &src[start..];
     // split into the three mode sections
